@@ -597,7 +597,12 @@ class Formatter:
 
         acc = []
         acc.append(join_keyword.upper())
-        acc.append(self.dispatch(json[join_keyword], precedence["join"]))
+        source = json[join_keyword]
+        if isinstance(source, list):
+            # A PARENTHESISED GROUP OF SOURCES IS WRITTEN LIKE THE LIST AFTER FROM
+            acc.append(f"({self._sources(source)})")
+        else:
+            acc.append(self.dispatch(source, precedence["join"]))
 
         if json.get("on") is not None:
             acc.append("ON")
@@ -737,7 +742,6 @@ class Formatter:
         return f"SELECT DISTINCT {param}"
 
     def from_(self, json, prec):
-        joiner = ", "
         from_ = json["from"]
         if isinstance(from_, dict) and "literal" in from_:
             content = ", ".join(self._literal(row) for row in from_["literal"])
@@ -746,17 +750,23 @@ class Formatter:
             source = self.op(from_, precedence["from"])
             return f"FROM {source}"
 
-        from_ = listwrap(from_)
+        return f"FROM {self._sources(listwrap(from_))}"
+
+    def _sources(self, sources):
+        joiner = ", "
         rest = ""
-        for v in from_:
-            if join_keywords & set(v):
+        for v in sources:
+            if isinstance(v, list):
+                # A PARENTHESISED GROUP OF SOURCES
+                sql = f"({self._sources(v)})"
+            elif join_keywords & set(v):
                 # AN EXPLICIT JOIN FOLLOWS THE PREVIOUS SOURCE WITHOUT A COMMA
                 rest += " " + self._join_on(v, precedence["from"] - 1)
-            elif rest:
-                rest += joiner + self.dispatch(v, precedence["from"] - 1)
+                continue
             else:
-                rest = self.dispatch(v, precedence["from"] - 1)
-        return f"FROM {rest.strip()}"
+                sql = self.dispatch(v, precedence["from"] - 1)
+            rest = rest + joiner + sql if rest else sql
+        return rest.strip()
 
     def where(self, json, prec):
         expr = self.dispatch(json["where"])
